@@ -46,6 +46,7 @@ type baseFunc struct {
 	Sig     string   `json:"sig"`
 	Callees []string `json:"callees"`
 	Params  []string `json:"params,omitempty"` // receiver first: the parameter names the rules' terms use
+	PTypes  []string `json:"ptypes,omitempty"` // their types
 }
 
 var baselineFuncs map[string]baseFunc
@@ -148,11 +149,12 @@ func dumpBaseline(P *Program, path string) error {
 		if strings.HasPrefix(pkg, "cmd/") {
 			continue
 		}
-		var pn []string
+		var pn, pt []string
 		for _, p := range fn.Params {
 			pn = append(pn, p.Name())
+			pt = append(pt, ptypeString(p))
 		}
-		out[pkg+"|"+recv+"|"+name] = baseFunc{Sig: sigString(fn), Callees: calleeNames(fn), Params: pn}
+		out[pkg+"|"+recv+"|"+name] = baseFunc{Sig: sigString(fn), Callees: calleeNames(fn), Params: pn, PTypes: pt}
 	}
 	b, _ := json.MarshalIndent(out, "", " ")
 	return os.WriteFile(path, b, 0o644)
@@ -289,21 +291,114 @@ func jaccard(a, b []string) float64 {
 	return float64(inter) / float64(union)
 }
 
-// pname returns the name of a parameter as the rules' terms know it: renaming a parameter (or a receiver) of a declared
-// function whose parameter list is otherwise unchanged is not a new name. Closures keep their own names.
+func ptypeString(p *ssa.Parameter) string {
+	return types.TypeString(p.Type(), func(p *types.Package) string { return p.Name() })
+}
+
+var permCache = map[*ssa.Function][]int{}
+
+// paramPerm maps the parameter positions the rules know (baseline order, receiver first) to the current positions:
+// perm[baselineIdx] = currentIdx. Reordering the parameters of a helper, or renaming them, is not a new function.
+// Within each group of equally typed parameters the match is by name when the names are the same set, else by order.
+// nil: no baseline, or the parameter list changed in length or types.
+func paramPerm(fn *ssa.Function) []int {
+	fn = origin(fn)
+	if p, ok := permCache[fn]; ok {
+		return p
+	}
+	var perm []int
+	defer func() { permCache[fn] = perm }()
+	if fn.Parent() != nil {
+		return nil
+	}
+	loadBaseline()
+	pkg, recv, _ := funcKey(fn)
+	b, ok := baselineFuncs[pkg+"|"+recv+"|"+cname(fn)]
+	if !ok || len(b.Params) != len(fn.Params) || len(b.PTypes) != len(fn.Params) {
+		return nil
+	}
+	bGroups, cGroups := map[string][]int{}, map[string][]int{}
+	for i, t := range b.PTypes {
+		bGroups[t] = append(bGroups[t], i)
+	}
+	for j, p := range fn.Params {
+		t := ptypeString(p)
+		cGroups[t] = append(cGroups[t], j)
+	}
+	out := make([]int, len(fn.Params))
+	for t, bi := range bGroups {
+		ci := cGroups[t]
+		if len(ci) != len(bi) {
+			return nil
+		}
+		byName := map[string]int{}
+		for _, j := range ci {
+			byName[fn.Params[j].Name()] = j
+		}
+		sameNames := len(byName) == len(ci)
+		for _, i := range bi {
+			if _, ok := byName[b.Params[i]]; !ok {
+				sameNames = false
+			}
+		}
+		for k, i := range bi {
+			if sameNames {
+				out[i] = byName[b.Params[i]]
+			} else {
+				out[i] = ci[k]
+			}
+		}
+	}
+	perm = out
+	return perm
+}
+
+// bparam: the parameter at the position the rules know.
+func bparam(fn *ssa.Function, i int) *ssa.Parameter {
+	if perm := paramPerm(fn); perm != nil && i < len(perm) {
+		return fn.Params[perm[i]]
+	}
+	return fn.Params[i]
+}
+
+// bargs reorders the actual arguments of a call of callee (receiver included iff withRecv) into baseline order.
+func bargs[T any](callee *ssa.Function, args []T, withRecv bool) []T {
+	if callee == nil {
+		return args
+	}
+	perm := paramPerm(callee)
+	if perm == nil {
+		return args
+	}
+	off := 0
+	if !withRecv && origin(callee).Signature.Recv() != nil {
+		off = 1
+	}
+	if len(args)+off != len(perm) {
+		return args
+	}
+	out := make([]T, len(args))
+	for i := range args {
+		out[i] = args[perm[i+off]-off]
+	}
+	return out
+}
+
+// pname returns the name of a parameter as the rules' terms know it: renaming or reordering the parameters (or the
+// receiver) of a declared function is not a new name. Closures keep their own names.
 func pname(p *ssa.Parameter) string {
 	fn := p.Parent()
 	if fn == nil || fn.Parent() != nil {
 		return p.Name()
 	}
-	loadBaseline()
-	pkg, recv, _ := funcKey(fn)
-	b, ok := baselineFuncs[pkg+"|"+recv+"|"+cname(fn)]
-	if !ok || len(b.Params) != len(fn.Params) || b.Sig != sigString(origin(fn)) {
+	perm := paramPerm(fn)
+	if perm == nil {
 		return p.Name()
 	}
-	for i, q := range fn.Params {
-		if q == p {
+	pkg, recv, _ := funcKey(fn)
+	b := baselineFuncs[pkg+"|"+recv+"|"+cname(fn)]
+	for i, j := range perm {
+		if fn.Params[j] == p {
 			return b.Params[i]
 		}
 	}
